@@ -232,6 +232,11 @@ def step (st : St) (j : Json) : P (St × Json) := do
     match fsLookup st.fs path with
     | none => pure (st, Json.mkObj [("absent", true)])
     | some _ => pure (st, Json.mkObj [("hash", .str s!"v{st.version}")])
+  | "validate" =>
+    let path ← strField j "path"
+    match fsLookup st.fs path with
+    | some (.h5 f) => pure (st, Json.mkObj [("valid", validFile EmdGen.dataGroupTypes st.sess f)])
+    | _ => pure (st, Json.mkObj [("valid", false)])
   | "info" =>
     let path ← strField j "path"
     match fsLookup st.fs path with
